@@ -9,7 +9,7 @@ from z3 import And, ForAll, If, Implies, Not, Or
 
 from . import logic as L
 from .contract import REGISTRY, Contract
-from .values import SV, BoolV, ExcV, IntV, NoneV, Path, RefV, Unsupported, exc_isa
+from .values import SV, BoolV, ExcV, IntV, NoneV, Obligation, Path, RefV, Unsupported, exc_isa
 
 NODE_CLASSES = ("Node", "TypedNode", "_SystemRootNode", "_SystemRootTypedNode")
 TREE_CLASSES = ("Tree", "TypedTree", "FileSystemTree")
@@ -509,12 +509,14 @@ class CallMixin:
             if getattr(r, "havoc", None):
                 h1 = h0.havoc(r.havoc)
             q.heap = h1
-            x = Ctx(self, h0, h1, a, family=self.family, T=Tn)
+            # the clauses of an exceptional outcome may speak about the exception (class, carried value): a symbolic value here
+            ev = SV("val", L.fresh("excval", L.Val))
+            x = Ctx(self, h0, h1, a, family=self.family, T=Tn, exc=ExcV(r.exc, value=ev, site=f"L{line}/call {short}"))
             if r.when is not None:
                 q.assume(r.when(x))
             if r.ensures is not None:
                 q.assume(r.ensures(x))
-            val = None
+            val = ev if r.exc == "StopTraversal" else None
             if getattr(r, "value", None):
                 val = r.value(x)
             if r.exc == "Callback":
@@ -550,7 +552,12 @@ class CallMixin:
             if r.when is not None and r.must:
                 q.assume(Not(r.when(x0)))
         for en in c.ensures_:
-            q.assume(en.fn(x))
+            f = en.fn(x)
+            if z3.is_expr(f) and z3.is_false(z3.simplify(f)) and "never returns" not in en.name:
+                # vacuity guard: a callee clause that is literally False *at the call site* (e.g. one that reads context which
+                # exists only in the callee's own proof) would kill the path and make everything behind the call provable
+                self.obligations.append(Obligation(f"{self.qual}[{self.variant}]#L+{line - self.line0}/call {short}/must-fail:callee clause '{en.name}' is not literally false here", [z3.BoolVal(False)], z3.BoolVal(False), (), self.qual, "must_fail"))
+            q.assume(f)
         if isinstance(res.extra, dict) and "emb" in res.extra and res.tag == "lref":
             q.ghost.setdefault("filters", []).append((res.z, None, res.extra["emb"], res.extra["inv"]))
         if isinstance(res.extra, dict) and res.extra:
@@ -635,6 +642,8 @@ class CallMixin:
             return NoneV
         if t == "bool":
             return BoolV(L.fresh(f"r_{short}", L.B))
+        if t in ("true", "false"):
+            return BoolV(t == "true")
         if t == "int":
             return IntV(L.fresh(f"r_{short}", L.I))
         if t in ("node", "node?"):
